@@ -34,7 +34,6 @@ import re
 from fractions import Fraction
 
 from ..absval import Poly, Rat, eval_pred, ratfun
-from ..cfg import CFG
 from ..core import (AnalysisError, call_name, const_str, find_calls, kwarg,
                     last_attr, names_in, short, stmts_of, txt, walk)
 from .. import lib_C04 as L
@@ -558,68 +557,162 @@ def _r182(ctx, repo, bg_kinds):
 # ----------------------------------------------------------------------
 # R18.3
 
+class DT:
+    """model numpy dtype / scalar type"""
+    _strict_attrs = True
+    PARENTS = {"integer": "number", "inexact": "number",
+               "signedinteger": "integer", "unsignedinteger": "integer",
+               "floating": "inexact", "complexfloating": "inexact",
+               "number": "generic", "bool_": "generic"}
+
+    def __init__(self, name, kind=None, itemsize=None, parent=None):
+        self.name = name
+        self.kind = kind
+        self.itemsize = itemsize
+        self.parent = parent
+        self.type = self
+        self.char = name
+
+    def __eq__(self, o):
+        return isinstance(o, DT) and o.name == self.name
+
+    def __hash__(self):
+        return hash(self.name)
+
+    def __repr__(self):
+        return self.name
+
+    def lineage(self):
+        out = [self.name]
+        p = self.parent
+        while p:
+            out.append(p)
+            p = DT.PARENTS.get(p)
+        return out
+
+
+def _dtypes():
+    d = {}
+    for n, k, sz, par in (
+            ("int8", "i", 1, "signedinteger"), ("int16", "i", 2,
+                                                "signedinteger"),
+            ("int32", "i", 4, "signedinteger"),
+            ("int64", "i", 8, "signedinteger"),
+            ("uint8", "u", 1, "unsignedinteger"),
+            ("uint16", "u", 2, "unsignedinteger"),
+            ("uint32", "u", 4, "unsignedinteger"),
+            ("float16", "f", 2, "floating"), ("float32", "f", 4, "floating"),
+            ("float64", "f", 8, "floating"),
+            ("longdouble", "f", 16, "floating")):
+        d[n] = DT(n, k, sz, par)
+    for n in ("integer", "signedinteger", "unsignedinteger", "floating",
+              "inexact", "number", "generic", "complexfloating"):
+        d[n] = DT(n, None, None, DT.PARENTS.get(n))
+    d["int_"] = d["intp"] = d["longlong"] = d["int64"]
+    d["double"] = d["float_"] = d["float64"]
+    return d
+
+
+def _as_dt(table, t):
+    if isinstance(t, DT):
+        return t
+    if t is int:
+        return table["int64"]
+    if t is float:
+        return table["float64"]
+    if isinstance(t, str) and t in table:
+        return table[t]
+    raise AnalysisError(f"dtype model: `{t!r}` not modelled")
+
+
+class MCont:
+    """model contour array: only its dtype matters"""
+    _strict_attrs = True
+
+    def __init__(self, table, dt):
+        self._t = table
+        self.dtype = dt
+        self.shape = (5, 2)
+        self.ndim = 2
+
+    def astype(self, t, *a, **k):
+        return MCont(self._t, _as_dt(self._t, t))
+
+    def copy(self):
+        return MCont(self._t, self.dtype)
+
+    def __len__(self):
+        return 5
+
+
 def r183(ctx, repo):
-    fn = repo.func(INERT, "cont_moments_cv")
-    cfg = CFG(fn)
-    casts = []
-    for s in walk(fn):
-        if isinstance(s, ast.Assign) and len(s.targets) == 1 and txt(
-                s.targets[0]) == "cont" and isinstance(s.value, ast.Call) \
-                and last_attr(s.value) == "astype":
-            guard = s.parent
-            casts.append((s, guard if isinstance(guard, ast.If) else None))
-    kinds = {}
-    narrow = []
-    for s, g in casts:
-        if g is None:
-            kinds["all"] = s
-            continue
-        t = txt(g.test)
-        if "np.integer" in t:
-            kinds["integer"] = s
-        elif any(x in t for x in ("np.floating", "np.inexact", "np.number")):
-            kinds["floating"] = s
-        else:
-            narrow.append(t)
-    for kind, want in (("integer", "np.int64"), ("floating", "np.float64")):
-        s = kinds.get(kind) or kinds.get("all")
-        ok = s is not None and txt(s.value.args[0]) in (
-            want, "np.float64" if kind == "integer" else want,
-            "np.longdouble", "'" + want[3:] + "'")
-        ctx.ob("R18.3", ok,
-               f"{kind} contours are cast to {txt(s.value.args[0])}" if ok
-               else (f"{kind} contours are not cast to 64 bit"
-                     + (f" (`{txt(s.value)}`)" if s is not None else "")
-                     + (f"; the cast is guarded by `{narrow[0]}`, which "
-                        f"does not cover all {kind} types (float16/float32 "
-                        f"stay as they are)" if narrow and s is None else "")
-                     + (": products of coordinates overflow for long "
-                        "channels" if kind == "integer" else
-                        ": moments are accumulated in reduced precision")),
-               node=s or fn,
-               key=f"{INERT}::cont_moments_cv::64-bit cast of {kind} input")
-    # the cast statements dominate every read of the coordinates
-    heads = []
-    for s, g in casts:
-        top = g if g is not None else s
-        while isinstance(top.parent, ast.If) and top in top.parent.orelse:
-            top = top.parent
-        heads.append(top)
-    if not heads:
-        return
-    head_ids = {i for h in heads for i in cfg.ids_of(h)}
-    reads = [s for s in stmts_of(fn) if isinstance(s, ast.Assign) and any(
-        isinstance(n, ast.Subscript) and txt(n.value) == "cont"
-        for n in ast.walk(s.value))]
-    if len(reads) < 2:
+    fn = normalised(repo, INERT, "cont_moments_cv")
+    # the prologue: everything before the first read of the coordinates
+    first = None
+    for i, st in enumerate(fn.body):
+        if any(isinstance(n, ast.Subscript) and txt(n.value) == "cont"
+               for n in ast.walk(st)):
+            first = i
+            break
+    if first is None:
         raise AnalysisError("cont_moments_cv: coordinate reads lost")
-    for r in reads:
-        ok = all(cfg.always_before(i, lambda n: n.id in head_ids)
-                 for i in cfg.ids_of(r))
-        ctx.ob("R18.3", ok, "coordinates are read after the 64-bit cast"
-               if ok else f"`{short(r, 40)}` reads the coordinates before "
-               f"the 64-bit cast: products are formed in the input type",
-               node=r, label=f"cast dominates {short(r, 30)}")
+    pro = ast.FunctionDef(
+        name="cont_moments_cv__cast_prologue", args=fn.args,
+        body=list(fn.body[:first]) + [ast.Return(value=ast.Name(
+            id="cont", ctx=ast.Load()))], decorator_list=[], returns=None,
+        type_comment=None, lineno=fn.lineno, col_offset=0)
+    ast.fix_missing_locations(pro)
+    table = _dtypes()
+    np_ = L.NPModel(dict(table))
+
+    def issubdtype(a, b):
+        a = a.dtype if isinstance(a, MCont) else _as_dt(table, a)
+        b = _as_dt(table, b)
+        return b.name in a.lineage()
+
+    def asarray(a, dtype=None, **k):
+        if isinstance(a, MCont):
+            return a if dtype is None else a.astype(dtype)
+        raise AnalysisError("dtype model: np.asarray of a non-contour")
+    np_.issubdtype = issubdtype
+    np_.asarray = np_.array = np_.asanyarray = asarray
+    np_.dtype = lambda t: _as_dt(table, t)
+    it = L.Interp(repo)
+    env = it.env(INERT, {"np": np_, "ssp": L.Opaque("scipy.spatial")})
+    run_pro = L.Closure(it, pro, env)
+    results = {}
+    for name in ("int8", "int16", "int32", "int64", "uint8", "uint16",
+                 "uint32", "float16", "float32", "float64"):
+        res = L.run(lambda: run_pro(MCont(table, table[name])))
+        if res[0] == "ok" and not isinstance(res[1], MCont):
+            raise AnalysisError("cont_moments_cv: the contour is replaced by "
+                                f"{type(res[1]).__name__} before it is read")
+        results[name] = res
+    for kind, names in (("integer", ("int8", "int16", "int32", "int64",
+                                     "uint8", "uint16", "uint32")),
+                        ("floating", ("float16", "float32", "float64"))):
+        bad = None
+        for n_ in names:
+            r = results[n_]
+            if r[0] != "ok":
+                bad = bad or (n_, f"{r[0]} {r[1]}: {r[2]}")
+                continue
+            dt = r[1].dtype
+            wide = dt.kind in ("i", "f") and dt.itemsize >= 8 and (
+                kind == "integer" or dt.kind == "f")
+            if not wide:
+                bad = bad or (n_, f"dtype {dt} when the coordinates are "
+                              f"read")
+        ctx.ob("R18.3", bad is None,
+               f"{kind} contours ({', '.join(names)}) are 64 bit when the "
+               f"coordinates are read" if bad is None else
+               f"{kind} contours are not cast to 64 bit before the "
+               f"coordinates are read: a {bad[0]} contour has {bad[1]}"
+               + (": products of coordinates overflow for long channels"
+                  if kind == "integer" else
+                  ": moments are accumulated in reduced precision"),
+               node=fn.body[first],
+               key=f"{INERT}::cont_moments_cv::64-bit cast of {kind} input")
     # no product is formed from the un-cast parameter elsewhere
     prnc = repo.func(INERT, "get_inert_ratio_prnc")
     cc = [s for s in walk(prnc) if isinstance(s, ast.Assign) and txt(
@@ -1840,8 +1933,9 @@ def run(ctx):
              "None` in all siblings", minimum=3)
     ctx.rule("R18.2", "signed background subtraction, masked statistics, "
              "offset on location statistics only", minimum=14)
-    ctx.rule("R18.3", "64-bit cast dominates every coordinate read in "
-             "cont_moments_cv", minimum=5)
+    ctx.rule("R18.3", "every integer / floating contour dtype is 64 bit when "
+             "cont_moments_cv reads the coordinates (cast prologue evaluated "
+             "on all dtypes)", minimum=3)
     ctx.rule("R18.4", "truncated-cone identity, point_scale**3, pixel "
              "size / centroid handling in get_volume", minimum=10)
     ctx.rule("R18.5", "crosstalk correction inverts the documented "
@@ -2428,4 +2522,48 @@ MUTANTS = list(MUTANTS) + [
          "        mski = mask[ii]\n", "        pixels = imgi\n"
      ).replace("np.mean(imgi[mski])", "np.mean(pixels)").replace(
          "np.std(imgi[mski])", "np.std(pixels)"), "R18.2"),
+]
+
+# round-4 refactoring campaign/refactorings_round4/C18/refactor3
+_CAST_CHAIN = ("    if np.issubdtype(cont.dtype, np.integer):\n"
+               "        cont = cont.astype(np.int64)\n"
+               "    elif np.issubdtype(cont.dtype, np.floating):\n"
+               "        cont = cont.astype(np.float64)\n")
+_CAST_LOOP = ("    for abstract_dtype, dtype_64bit in _CONTOUR_DTYPE_CASTS:\n"
+              "        if np.issubdtype(cont.dtype, abstract_dtype):\n"
+              "            cont = cont.astype(dtype_64bit)\n"
+              "            break\n")
+_CAST_TABLE = ("import scipy.spatial as ssp\n\n"
+               "_CONTOUR_DTYPE_CASTS = (\n"
+               "    (np.integer, np.int64),\n"
+               "    (np.floating, np.float64),\n"
+               ")\n")
+
+TWINS = list(TWINS) + [
+    ("moments: 64-bit casts dispatched through a module-level table", INERT,
+     [(_CAST_CHAIN, _CAST_LOOP),
+      ("import scipy.spatial as ssp\n", _CAST_TABLE)]),
+    ("moments: casts decided by the dtype kind", INERT,
+     (_CAST_CHAIN,
+      "    if cont.dtype.kind in \"iu\":\n"
+      "        cont = cont.astype(np.int64)\n"
+      "    elif cont.dtype.kind == \"f\":\n"
+      "        cont = cont.astype(np.float64)\n")),
+]
+
+MUTANTS = list(MUTANTS) + [
+    ("cast table: 32-bit target for integers", INERT,
+     [(_CAST_CHAIN, _CAST_LOOP),
+      ("import scipy.spatial as ssp\n", _CAST_TABLE.replace(
+          "(np.integer, np.int64)", "(np.integer, np.int32)"))], "R18.3"),
+    ("cast table: only signed integers promoted", INERT,
+     [(_CAST_CHAIN, _CAST_LOOP),
+      ("import scipy.spatial as ssp\n", _CAST_TABLE.replace(
+          "(np.integer, np.int64)", "(np.signedinteger, np.int64)"))],
+     "R18.3"),
+    ("cast table: loop leaves after the first row", INERT,
+     [(_CAST_CHAIN, _CAST_LOOP.replace(
+         "            cont = cont.astype(dtype_64bit)\n            break\n",
+         "            cont = cont.astype(dtype_64bit)\n        break\n")),
+      ("import scipy.spatial as ssp\n", _CAST_TABLE)], "R18.3"),
 ]
